@@ -131,7 +131,7 @@ impl Cx {
                             out.push(")".into());
                         } else {
                             // keep the position for nested parens / closure bodies
-                            let p = if pos == Pos::Callee { Pos::Callee } else { Pos::Other };
+                            let p = if matches!(pos, Pos::Callee | Pos::ClosureBody) { pos } else { Pos::Other };
                             self.node(inner, M::Code, p, out);
                         }
                     }
@@ -432,6 +432,8 @@ impl Cx {
             }
             i += 1;
         }
+        // consecutive paragraph breaks are one paragraph break
+        toks.dedup_by(|a, b| a == "PAR" && b == "PAR");
         let trim = matches!(pos, Pos::Root | Pos::TrimmedBody);
         if trim {
             if let Some(first) = toks.first_mut() {
